@@ -81,5 +81,346 @@ theorem goodL_ifnz {c sh : Int} {body : List (Instr w)} :
     GoodL [Instr.ifnz c sh body] ↔ GoodL body := by
   rw [goodL_single, GoodI]
 
+mutual
+theorem goodI_noDup : ∀ (i : Instr w), GoodI i → C01Dse.noDupI i = true
+  | .output _, _ => by simp [C01Dse.noDupI]
+  | .input _, _ => by simp [C01Dse.noDupI]
+  | .calc g, h => by
+    rw [GoodI] at h
+    simp [C01Dse.noDupI, h.1]
+  | .loop _ _ body _, h => by
+    rw [GoodI] at h
+    rw [C01Dse.noDupI]; exact goodL_noDup body h
+  | .ifnz _ _ body, h => by
+    rw [GoodI] at h
+    rw [C01Dse.noDupI]; exact goodL_noDup body h
+/-- hence `C01Dse.NoDupTargets ⟨sh, l⟩` -/
+theorem goodL_noDup : ∀ (l : List (Instr w)), GoodL l → C01Dse.noDupL l = true
+  | [], _ => by rw [C01Dse.noDupL]
+  | i :: rest, h => by
+    rw [GoodL] at h
+    rw [C01Dse.noDupL, goodI_noDup i h.1, goodL_noDup rest h.2]; rfl
+end
+
+theorem goodL_noDupTargets {l : List (Instr w)} (sh : Int) (h : GoodL l) :
+    C01Dse.NoDupTargets (⟨sh, l⟩ : Block w) := goodL_noDup l h
+
+theorem canonL_nil : CanonL ([] : List (Instr w)) := by rw [CanonL]; trivial
+
+theorem canonL_cons {i : Instr w} {l : List (Instr w)} : CanonL (i :: l) ↔ CanonI i ∧ CanonL l := by
+  rw [CanonL]
+
+theorem canonL_append {a b : List (Instr w)} : CanonL (a ++ b) ↔ CanonL a ∧ CanonL b := by
+  induction a with
+  | nil => simp [canonL_nil]
+  | cons i a ih => rw [List.cons_append, canonL_cons, canonL_cons, ih, and_assoc]
+
+theorem canonL_single {i : Instr w} : CanonL [i] ↔ CanonI i := by
+  rw [canonL_cons]; simp [canonL_nil]
+
+theorem canonL_calc {g : List (Int × Expr w)} : CanonL [Instr.calc g] ↔ CanonCalcs g := by
+  rw [canonL_single, CanonI]; rfl
+
+theorem canonL_output (src : Int) : CanonL [(Instr.output src : Instr w)] := by
+  rw [canonL_single, CanonI]; trivial
+
+theorem canonL_input (dst : Int) : CanonL [(Instr.input dst : Instr w)] := by
+  rw [canonL_single, CanonI]; trivial
+
+theorem canonL_loop {c sh : Int} {body : List (Instr w)} {o : Bool} :
+    CanonL [Instr.loop c sh body o] ↔ CanonL body := by
+  rw [canonL_single, CanonI]
+
+theorem canonL_ifnz {c sh : Int} {body : List (Instr w)} :
+    CanonL [Instr.ifnz c sh body] ↔ CanonL body := by
+  rw [canonL_single, CanonI]
+
+mutual
+theorem goodI_canonI : ∀ (i : Instr w), GoodI i → CanonI i
+  | .output _, _ => by rw [CanonI]; trivial
+  | .input _, _ => by rw [CanonI]; trivial
+  | .calc g, h => by
+    rw [GoodI] at h
+    rw [CanonI]; exact h.2
+  | .loop _ _ body _, h => by
+    rw [GoodI] at h
+    rw [CanonI]; exact goodL_canonL body h
+  | .ifnz _ _ body, h => by
+    rw [GoodI] at h
+    rw [CanonI]; exact goodL_canonL body h
+theorem goodL_canonL : ∀ (l : List (Instr w)), GoodL l → CanonL l
+  | [], _ => canonL_nil
+  | i :: rest, h => by
+    rw [GoodL] at h
+    rw [CanonL]; exact ⟨goodI_canonI i h.1, goodL_canonL rest h.2⟩
+end
+
+/-- emitted groups with distinct targets and canonical right-hand sides -/
+theorem goodL_calcs {comps : List (List (Int × Expr w))}
+    (hnd : ∀ g ∈ comps, (g.map (·.1)).Nodup) (hc : ∀ g ∈ comps, CanonCalcs g) :
+    GoodL (comps.map Instr.calc) := by
+  induction comps with
+  | nil => exact goodL_nil
+  | cons g comps ih =>
+    rw [List.map_cons, goodL_cons, GoodI]
+    exact ⟨⟨hnd g (by simp), hc g (by simp)⟩,
+      ih (fun g' hg' => hnd g' (by simp [hg'])) (fun g' hg' => hc g' (by simp [hg']))⟩
+
+/-! ### `shiftVars` keeps the normal form -/
+
+theorem cmpVars_map_add (a b : List Int) (s : Int) :
+    Expr.cmpVars (a.map (· + s)) (b.map (· + s)) = Expr.cmpVars a b := by
+  induction a generalizing b with
+  | nil => cases b <;> rfl
+  | cons x a ih =>
+    cases b with
+    | nil => rfl
+    | cons y b =>
+      simp only [List.map_cons, Expr.cmpVars, ih]
+      have h1 : (x + s < y + s) ↔ x < y := by omega
+      have h2 : (y + s < x + s) ↔ y < x := by omega
+      simp only [h1, h2]
+
+theorem sortedVars_map_add {vs : List Int} (h : Expr.SortedVars vs) (s : Int) :
+    Expr.SortedVars (vs.map (· + s)) := by
+  unfold Expr.SortedVars at *
+  rw [List.pairwise_map]
+  exact h.imp (fun hab => by omega)
+
+theorem canon_shiftVars {e : Expr w} (h : Expr.Canon e) (s : Int) : Expr.Canon (shiftVars e s) := by
+  unfold Expr.Canon at *
+  have hm : (shiftVars e s).map (·.vars) = (e.map (·.vars)).map (fun vs => vs.map (· + s)) := by
+    unfold shiftVars
+    rw [List.map_map, List.map_map]
+    rfl
+  rw [hm]
+  obtain ⟨h1, h2⟩ := h
+  constructor
+  · intro vs hvs
+    obtain ⟨vs0, hvs0, rfl⟩ := List.mem_map.1 hvs
+    exact sortedVars_map_add (h1 vs0 hvs0) s
+  · rw [List.pairwise_map]
+    exact h2.imp (fun hab => by rw [cmpVars_map_add]; exact hab)
+
+/-! ### Accessors -/
+
+theorem CanonSt.of_eq {s s' : Rebuild w} (h : CanonSt s) (hp : s'.pending = s.pending)
+    (hw : s'.written = s.written) : CanonSt s' := by
+  unfold CanonSt; rw [hp, hw]; exact h
+
+theorem canonSt_new (shift : Int) (cond : Option Int) (par : OptParent) (anal : Option (OptAnalysis w)) :
+    CanonSt (Rebuild.new shift cond par anal) := by
+  constructor <;> intro v e h <;> simp [Rebuild.new, mGet] at h
+
+theorem getWritten_canon {s : Rebuild w} (hc : CanonSt s) (ps : List (Rebuild w)) {v : Int} {e : Expr w}
+    (h : getWritten s ps v = some e) : Expr.Canon e := by
+  unfold getWritten at h
+  split at h
+  · rename_i expr hw
+    simp only [Option.some.injEq] at h
+    subst h; exact hc.2 v _ hw
+  · cases h
+  · split at h
+    · simp only [Option.some.injEq] at h
+      subst h; exact Expr.canon_val _
+    · simp only [Option.some.injEq] at h
+      subst h; exact Expr.canon_var _
+
+theorem getPending_canon {s : Rebuild w} (hc : CanonSt s) (ps : List (Rebuild w)) (v : Int) :
+    Expr.Canon (getPending s ps v) := by
+  unfold getPending
+  split
+  · rename_i expr hp; exact hc.1 v _ hp
+  · split
+    · exact Expr.canon_val _
+    · exact Expr.canon_var _
+
+theorem evalWritten_canon {s : Rebuild w} (hc : CanonSt s) (ps : List (Rebuild w)) {e e' : Expr w}
+    (h : evalWritten s ps e = some e') (he : Expr.Canon e) : Expr.Canon e' := by
+  unfold evalWritten at h
+  split at h
+  · exact Expr.canon_symbEvaluate _ (fun v e1 hv => getWritten_canon hc ps hv) h
+  · simp only [Option.some.injEq] at h
+    subst h; exact he
+
+theorem evalPending_canon {s : Rebuild w} (hc : CanonSt s) (ps : List (Rebuild w)) {sh : Int}
+    {e e' : Expr w} (h : evalPending s ps sh e = .ok e') (he : Expr.Canon e) : Expr.Canon e' := by
+  unfold evalPending at h
+  split at h
+  · split at h
+    · rename_i e0 hs
+      cases h
+      refine Expr.canon_symbEvaluate _ ?_ hs
+      intro v e1 hv
+      simp only [Option.some.injEq] at hv
+      subst hv; exact getPending_canon hc ps _
+    · cases h
+  · split at h
+    · cases h; exact canon_shiftVars he sh
+    · cases h; exact he
+
+theorem getBoth_canon {s : Rebuild w} (hc : CanonSt s) (ps : List (Rebuild w)) {v : Int} {e : Expr w}
+    (h : getBoth s ps v = some e) : Expr.Canon e := by
+  unfold getBoth at h
+  split at h
+  · rename_i expr hp
+    exact evalWritten_canon hc ps h (hc.1 v _ hp)
+  · exact getWritten_canon hc ps h
+
+/-! ### Mutators -/
+
+theorem removePending_canon {s : Rebuild w} (hwf : Wf s) (hc : CanonSt s) (var : Int) :
+    CanonSt (removePending s var).1 := by
+  have hs := removePending_same s var
+  constructor
+  · intro v e h
+    rw [removePending_get hwf] at h
+    split at h
+    · cases h
+    · exact hc.1 v e h
+  · intro v e h
+    rw [hs.2.2.2.2.2.2.2.1] at h
+    exact hc.2 v e h
+
+theorem removePending_snd_canon {s : Rebuild w} (hc : CanonSt s) (var : Int) {e : Expr w}
+    (h : (removePending s var).2 = some e) : Expr.Canon e := by
+  rw [removePending_snd] at h
+  exact hc.1 var e h
+
+theorem insertPending_canon {s : Rebuild w} (hwf : Wf s) (hc : CanonSt s) (ps : List (Rebuild w))
+    (var : Int) {expr : Expr w} (he : Expr.Canon expr) : CanonSt (insertPending s ps var expr) := by
+  have hs := insertPending_same s ps var expr
+  constructor
+  · intro v e h
+    rw [insertPending_get hwf] at h
+    split at h
+    · split at h
+      · cases h
+      · simp only [Option.some.injEq] at h
+        subst h; exact Expr.canon_normalize he
+    · exact hc.1 v e h
+  · intro v e h
+    rw [hs.2.2.2.2.2.2.2.1] at h
+    exact hc.2 v e h
+
+theorem foldl_insertPending_canon {s : Rebuild w} (hwf : Wf s) (hc : CanonSt s) (ps : List (Rebuild w))
+    (exprs : List (Int × Expr w)) (he : CanonCalcs exprs) :
+    CanonSt (exprs.foldl (fun s ve => insertPending s ps ve.1 ve.2) s) := by
+  induction exprs generalizing s with
+  | nil => exact hc
+  | cons ve exprs ih =>
+    simp only [List.foldl_cons]
+    exact ih (insertPending_wf hwf ps ve.1 ve.2) (insertPending_canon hwf hc ps ve.1 (he ve (by simp)))
+      (fun ve' h' => he ve' (by simp [h']))
+
+/-- `insertWritten` of a value that is canonical when it is `known`. -/
+theorem insertWritten_canon {s : Rebuild w} (hc : CanonSt s) (var : Int) (val : OptWrite w)
+    (hv : ∀ e, val = .known e → Expr.Canon e) : CanonSt (insertWritten s var val) := by
+  have hs := insertWritten_same s var val
+  constructor
+  · intro v e h
+    rw [hs.2.2.2.2.2.2.2.1] at h
+    exact hc.1 v e h
+  · intro v e h
+    rw [insertWritten_written, mGet_mSet] at h
+    split at h
+    · simp only [Option.some.injEq] at h
+      cases val with
+      | known e0 =>
+        simp only [OptWrite.known.injEq] at h
+        subst h; exact Expr.canon_normalize (hv e0 rfl)
+      | unknown => cases h
+      | maybe => cases h
+    · exact hc.2 v e h
+
+theorem insertWritten_canon_known {s : Rebuild w} (hc : CanonSt s) (var : Int) {e : Expr w}
+    (he : Expr.Canon e) : CanonSt (insertWritten s var (.known e)) :=
+  insertWritten_canon hc var _ (fun e' h => by cases h; exact he)
+
+theorem insertWritten_canon_unknown {s : Rebuild w} (hc : CanonSt s) (var : Int) :
+    CanonSt (insertWritten s var .unknown) :=
+  insertWritten_canon hc var _ (fun e' h => by cases h)
+
+theorem insertWritten_canon_maybe {s : Rebuild w} (hc : CanonSt s) (var : Int) :
+    CanonSt (insertWritten s var .maybe) :=
+  insertWritten_canon hc var _ (fun e' h => by cases h)
+
+theorem read_canon {s : Rebuild w} (hc : CanonSt s) (var : Int) : CanonSt (Opt.read s var) := by
+  have hs := read_same s var
+  exact hc.of_eq hs.2.2.2.2.2.2.2.1 hs.2.2.2.2.2.2.1
+
+theorem readGroup_canon {s : Rebuild w} (hc : CanonSt s) (calcs : List (Int × Expr w)) :
+    CanonSt (readGroup s calcs) := by
+  have hs := readGroup_same s calcs
+  exact hc.of_eq hs.2.2.2.2.2.2.2.1 hs.2.2.2.2.2.2.1
+
+theorem mGet_foldl_mSet_cases {ν : Type} (l : List (Int × ν)) (m0 : List (Int × ν)) (v : Int) (x : ν)
+    (h : mGet (l.foldl (fun m kv => mSet m kv.1 kv.2) m0) v = some x) :
+    (v, x) ∈ l ∨ mGet m0 v = some x := by
+  induction l generalizing m0 with
+  | nil => exact Or.inr h
+  | cons kv l ih =>
+    simp only [List.foldl_cons] at h
+    rcases ih _ h with h1 | h1
+    · exact Or.inl (List.mem_cons_of_mem _ h1)
+    · rw [mGet_mSet] at h1
+      split at h1
+      · rename_i hk
+        simp only [Option.some.injEq] at h1
+        left
+        have : kv = (v, x) := by rw [← hk, ← h1]
+        rw [this]; exact List.mem_cons_self
+      · exact Or.inr h1
+
+theorem knownOf_canon {s : Rebuild w} (hc : CanonSt s) (ps : List (Rebuild w)) {e0 e : Expr w}
+    (h : knownOf s ps e0 = .known e) (he : Expr.Canon e0) : Expr.Canon e := by
+  unfold knownOf at h
+  split at h
+  · split at h
+    · rename_i c hcw
+      simp only [OptWrite.known.injEq] at h
+      subst h
+      exact Expr.canon_normalize (evalWritten_canon hc ps hcw he)
+    · cases h
+  · cases h
+
+theorem writtenCalcs_canon {s : Rebuild w} (hc : CanonSt s) (ps : List (Rebuild w))
+    {calcs : List (Int × Expr w)} (hcalcs : CanonCalcs calcs) : CanonSt (writtenCalcs s ps calcs) := by
+  obtain ⟨hs, _, hwr⟩ := writtenCalcs_eq s ps calcs
+  constructor
+  · intro v e h
+    rw [hs.2.2.2.2.2.2.2.1] at h
+    exact hc.1 v e h
+  · intro v e h
+    rw [hwr] at h
+    rcases mGet_foldl_mSet_cases _ _ _ _ h with h1 | h1
+    · obtain ⟨vc, hvc, e1⟩ := List.mem_map.1 h1
+      simp only [Prod.mk.injEq] at e1
+      exact knownOf_canon hc ps e1.2 (hcalcs vc hvc)
+    · exact hc.2 v e h1
+
+theorem emitGroup_canon {s : Rebuild w} (hc : CanonSt s) (ps : List (Rebuild w))
+    {calcs : List (Int × Expr w)} (hcalcs : CanonCalcs calcs) : CanonSt (emitGroup ps s calcs) := by
+  have h := writtenCalcs_canon (readGroup_canon hc calcs) ps hcalcs
+  exact ⟨h.1, h.2⟩
+
+theorem emitStructured_canon {s : Rebuild w} (hc : CanonSt s) (ps : List (Rebuild w))
+    {toEmit : List (List (Int × Expr w))} (hg : ∀ g ∈ toEmit, CanonCalcs g) :
+    CanonSt (emitStructured s ps toEmit) := by
+  rw [emitStructured_eq]
+  induction toEmit generalizing s with
+  | nil => exact hc
+  | cons g toEmit ih =>
+    simp only [List.foldl_cons]
+    exact ih (emitGroup_canon hc ps (hg g (by simp))) (fun g' hg' => hg g' (by simp [hg']))
+
+theorem uncertainShift_canon {s : Rebuild w} (hc : CanonSt s) : CanonSt (uncertainShift s) := by
+  constructor
+  · exact hc.1
+  · intro v e h
+    simp [uncertainShift, mGet] at h
+
+theorem forgetParent_canon {s : Rebuild w} (hc : CanonSt s) : CanonSt (forgetParent s) := ⟨hc.1, hc.2⟩
+
 end OptProof
 end Hpbf
